@@ -112,6 +112,26 @@ Theorem C18_binary_conservation : forall L h s outs m,
 Proof. exact bspray_conservation. Qed.
 Print Assumptions C18_binary_conservation.
 
+(* ---- the periodic metadata garbage collection running concurrently with an event ----
+   GarbageCollect holds the metadata write lock for its whole duration, so with respect to the
+   metadata accesses of submit / forward / failure reports it is atomic; for one bundle the run is
+   the event preceded or followed by SeGC ([spray_step_gc], Model/Spray.v).  That is a history: all
+   theorems above (budget, accounting, give-back, conservation) hold for histories in which any
+   event overlaps a collection.  And while the store knows the bundle the collection is invisible:
+   no metadata update of the event is lost.  (That the implementation serialises the collection in
+   this way is what generator C18sprayconc checks on the real code.) *)
+Theorem C18_gc_overlap_serial : forall b c s e ch,
+  spray_step_gc b c s e ch
+  = spray_run c s (if b then [(SeGC, []); (e, ch)] else [(e, ch); (SeGC, [])]).
+Proof. exact step_gc_is_history. Qed.
+Print Assumptions C18_gc_overlap_serial.
+
+Theorem C18_gc_overlap_transparent : forall b c s e ch s' o,
+  ss_stored s = true -> spray_step c s e ch = Some (s', o) -> ss_stored s' = true ->
+  spray_step_gc b c s e ch = Some (s', o).
+Proof. exact step_gc_transparent. Qed.
+Print Assumptions C18_gc_overlap_transparent.
+
 (* ---- non-vacuity ---- *)
 
 (* the lock is needed: with the original discipline (read under RLock, write under Lock) the
@@ -163,3 +183,17 @@ Example C18_example_binary :
   | None => False
   end.
 Proof. vm_compute. repeat split. Qed.
+
+(* a copy handed out while a collection runs stays counted (L = 2: the second relay is refused) *)
+Example C18_example_gc_overlap :
+  match spray_run (vconf 2) spray_init [ (SeCreate true 7 None None, []) ] with
+  | Some (s, _) =>
+    match spray_step_gc true (vconf 2) s (SePeerUp 10 1 false) [10] with
+    | Some (s1, o1) => ss_meta s1 = Some {| sm_rem := 1; sm_sent := [1] |} /\ spray_relayed 7 o1 = 1
+                       /\ spray_step_gc false (vconf 2) s1 (SePeerUp 11 2 false) [11] = None
+                       /\ exists s2, spray_step_gc false (vconf 2) s1 (SePeerUp 11 2 false) [] = Some (s2, [])
+    | None => False
+    end
+  | None => False
+  end.
+Proof. vm_compute. repeat split. eexists. reflexivity. Qed.
